@@ -27,6 +27,7 @@ def pruning_sets():
     return out
 
 
+ORDER_KEYS = set()  # long instances whose LATER memory operation is the cheap one to run first (few option sets)
 REUSE_KEYS = set()  # blocks that need one more position than the quick bound (copy versus recompute)
 
 
@@ -58,6 +59,20 @@ def instances(tier):
     reuse += [[I("ISZERO"), P(7), I("SWAP2"), I("ADDMOD")], [I("SWAP2"), I("ISZERO"), I("SWAP2"), I("MULMOD")]]
     REUSE_KEYS.clear()
     REUSE_KEYS.update(tuple(b) for b in reuse)
+    # the operands of the later of two ordered operations are on top of the initial stack: a missing ordering
+    # constraint shows as a cheaper model that is not a realization
+    order = [[I("SWAP2"), I("MLOAD"), I("SWAP2"), I("MSTORE")],
+             [I("SWAP2"), I("SLOAD"), I("SWAP2"), I("SSTORE")],
+             [I("SWAP2"), I("SWAP1"), I("MSTORE"), I("MLOAD")],
+             [I("SWAP2"), I("SWAP1"), I("SSTORE"), I("SLOAD")],
+             [I("SWAP2"), I("SWAP1"), I("SWAP3"), I("SWAP1"), I("SSTORE"), I("SSTORE")],
+             [I("SWAP2"), I("SWAP1"), I("SWAP3"), I("SWAP1"), I("MSTORE"), I("MSTORE")]]
+    if tier != "quick":
+        order += [[I("SWAP1"), I("DUP1"), I("MLOAD"), I("SWAP2"), I("SWAP1"), I("MSTORE8")],
+                  [I("SWAP2"), I("SWAP1"), I("SWAP3"), I("SWAP1"), I("MSTORE8"), I("MSTORE")]]
+    ORDER_KEYS.clear()
+    ORDER_KEYS.update(tuple(b) for b in order)
+    blocks += order
     blocks += reuse
     for st in ("MSTORE", "MSTORE8", "SSTORE"):
         blocks += [[I(st), I("POP")], [I(st), I("POP"), I("POP")], [I("SWAP1"), I("SWAP1"), I(st), I("POP")],
@@ -197,12 +212,22 @@ def check_config(ctx, key, sfs, ref, w, limits):
     if not projs:
         return None, info
     rows = []
+    wrong = []
     for proj, (A, soft) in projs.items():
         ids = c06.decode(bo, prob, A)
         info["decoded"] = info.get("decoded", 0) + 1
-        if sym_ref.realizes(sfs, ids) is not None:
-            return None, info  # C06's subject
+        why = sym_ref.realizes(sfs, ids)
+        if why is not None:
+            wrong.append((soft, ids, why))
+            continue
         rows.append((soft, cost_of(ids, w), ids))
+    if wrong:
+        # models that are no realization are C06's subject; here they matter when one of them is the optimum
+        wb = min(wrong, key=lambda r: r[0])
+        if not rows or wb[0] < min(r[0] for r in rows):
+            return {"clause": "optimum-is-not-a-realization", "model_optimum": {"soft": wb[0], "ids": wb[1],
+                    "fails": str(wb[2])[:200]}, "true_optimum": {"cost": ref["cost"], "ids": ref["ids"]}}, info
+        return None, info
     offs = {s - c for s, c, _i in rows}
     if len(offs) > 1:
         # is the discrepancy explained by the tool pricing every instruction at no more than 5 bytes?
@@ -233,6 +258,9 @@ def main(tier, seed, only=None):
     if quick:
         prunes = [p for p in prunes if len([x for x in p if x.startswith("-") and x != "l_vars"]) <= 2]
     blocks = instances(tier)
+    if only == "order":
+        blocks = [b for b in blocks if tuple(b) in ORDER_KEYS]
+    blocks.sort(key=lambda b: tuple(b) not in ORDER_KEYS)  # the long instances start first
     chk.cov["rule"] = ("instances = specifications of a slice of tree over {PUSH 1, PUSH 2^200+, DUP1, SWAP1, POP, ADD, "
                        "ISZERO, MSTORE, SLOAD} (+7 hand blocks) with init_progr_len <= %d x 3 criteria x {grouped, "
                        "direct} soft constraints x %d pruning/bounds option sets; all projected models with their soft "
@@ -256,8 +284,11 @@ def main(tier, seed, only=None):
 
     wide = dict(limits, b0=limits["b0"] + 1)
     few = [p for p in prunes if len(p) <= 1] if quick else prunes
-    units = [(b, few, wide) if tuple(b) in REUSE_KEYS else (b, prunes, limits) for b in blocks]
-    tasks = [((), ch) for ch in pool.chunks(units, 2)]
+    long_ = dict(limits, b0=7, bs=5, nodes=400000)
+    units = [(b, few, long_) if tuple(b) in ORDER_KEYS else (b, few, wide) if tuple(b) in REUSE_KEYS
+             else (b, prunes, limits) for b in blocks]
+    tasks = [((), [u]) for u in units if tuple(u[0]) in ORDER_KEYS] + \
+        [((), ch) for ch in pool.chunks([u for u in units if tuple(u[0]) not in ORDER_KEYS], 2)]
     pool.run_tasks(tasks, work, setup=setup, unit_timeout=900, on_result=on_r)
     chk.cov.update({"states": max(1, tot["nodes"]), "transitions": max(1, tot["assignments"]),
                     "traces_validated_against_impl": tot["decoded"], "instances": tot["instances"],
